@@ -262,6 +262,18 @@ def catalogue(obj, spec, rnd):
                         n = get_p(r).patterns[pi].data[ci // tracks][ci % tracks]
                         n.note, n.vel, n.module, n.ctl, n.val = nc
                     add("pattern.cell", base + ["patterns", pi + 1, "cells", ci + 1], setcell, nc, pt["cells"][ci])
+                    # a cell that carries nothing but a module number (and one that is cleared)
+                    cj = rnd.randrange(len(pt["cells"]))
+                    mo = [0, 0, rnd.choice([1, 2, 9, 65535]), 0, 0]
+                    def setmod(r, pi=pi, cj=cj, tracks=tracks, mo=mo):
+                        n = get_p(r).patterns[pi].data[cj // tracks][cj % tracks]
+                        n.note, n.vel, n.module, n.ctl, n.val = mo
+                    add("pattern.cell-module-only", base + ["patterns", pi + 1, "cells", cj + 1], setmod, mo, pt["cells"][cj])
+                    ck = rnd.randrange(len(pt["cells"]))
+                    def clr(r, pi=pi, ck=ck, tracks=tracks):
+                        n = get_p(r).patterns[pi].data[ck // tracks][ck % tracks]
+                        n.note, n.vel, n.module, n.ctl, n.val = 0, 0, 0, 0, 0
+                    add("pattern.cell-cleared", base + ["patterns", pi + 1, "cells", ck + 1], clr, [0, 0, 0, 0, 0], pt["cells"][ck])
             elif pt["kind"] == "clone":
                 v = i32new(pt["y"])
                 add("pattern.clone-field", base + ["patterns", pi + 1, "y"], lambda r, pi=pi, v=v: setattr(get_p(r).patterns[pi], "y", v), v, pt["y"])
